@@ -274,6 +274,54 @@ Section Num.
 
   Definition fuel_of (n : v4 Z) : nat := Z.to_nat (c0 n + c1 n + c2 n + c3 n + 8).
 
+  (* lines 199-204: ns (portion of n[0] under n[2]) and nh (height from n[0]) *)
+  Definition obtuse_split (n0 n1 n2 : Z) : option (Z * Z) :=
+    let f := f_of_Z (n2 * n2 + n0 * n0) in
+    match f_to_int (f_round (PrimFloat.div (PrimFloat.sub f (f_of_Z (n1 * n1))) (f_of_Z (2 * n0)))) with
+    | None => None
+    | Some nsr =>
+      let ns := Z.min (n0 - 2) nsr in
+      match f_to_int (f_max 1%float (f_round (PrimFloat.sqrt (f_of_Z (n2 * n2 - ns * ns))))) with
+      | None => None
+      | Some nh => Some (ns, nh)
+      end
+    end.
+
+  (* lines 206-239, given ns and nh *)
+  Definition tri_obtuse (n : v4 Z) (vb : list bary) (ns nh : Z) : option (list bary * list tri) :=
+    let n0 := c0 n in let n1 := c1 n in let n2 := c2 n in
+    let eo0 := 3 in let eo1 := 3 + n0 - 1 in let eo2 := 3 + n0 - 1 + n1 - 1 in
+    let allfwd := V4 true true true true in
+    let hOffset := zlen vb in
+    match vget vb (eo0 + ns - 1), vget vb 2 with
+    | Some middleBary, Some b2 =>
+      let vb1 := vb ++ edge_verts b2 middleBary nh in
+      let tv0 := [(eo1 - 1, 1, eo1)] in
+      match partition_quad (fuel_of n) vb1 (V4 (eo1 - 1) eo1 2 (eo0 + ns - 1))
+                           (V4 (-1) (eo1 + 1) hOffset (eo0 + ns))
+                           (V4 0 (n1 - 2) (nh - 1) (n0 - ns - 2)) allfwd with
+      | None => None
+      | Some (tv1, vb2) =>
+        if n2 =? 1 then
+          Some (vb2, tv0 ++ tv1 ++ partition_fan 0 (eo0 + ns - 1) 2 (ns - 1) eo0)
+        else if ns =? 1 then
+          match partition_quad (fuel_of n) vb2 (V4 hOffset eo2 0 eo0)
+                               (V4 (-1) (eo2 + 1) (-1) (hOffset + nh - 2))
+                               (V4 0 (n2 - 2) (ns - 1) (nh - 2)) (V4 true true true false) with
+          | None => None
+          | Some (tv2, vb3) => Some (vb3, tv0 ++ tv1 ++ [(hOffset, 2, eo2)] ++ tv2)
+          end
+        else
+          match partition_quad (fuel_of n) vb2 (V4 (hOffset - 1) eo0 (eo0 + ns - 1) 2)
+                               (V4 (-1) (eo0 + 1) (hOffset + nh - 2) eo2)
+                               (V4 0 (ns - 2) (nh - 1) (n2 - 2)) (V4 true true false true) with
+          | None => None
+          | Some (tv2, vb3) => Some (vb3, tv0 ++ tv1 ++ [(hOffset - 1, 0, eo0)] ++ tv2)
+          end
+      end
+    | _, _ => None
+    end.
+
   (* GetCachedPartition (lines 142-246) *)
   Definition cached_partition (n : v4 Z) : option (list bary * list tri) :=
     if c3 n >? 0 then
@@ -307,43 +355,9 @@ Section Num.
         end
       else
         (* obtuse: split into two acute *)
-        match f_to_int (f_round (PrimFloat.div (PrimFloat.sub f (f_of_Z (n1 * n1))) (f_of_Z (2 * n0)))) with
+        match obtuse_split n0 n1 n2 with
         | None => None
-        | Some nsr =>
-          let ns := Z.min (n0 - 2) nsr in
-          match f_to_int (f_max 1%float (f_round (PrimFloat.sqrt (f_of_Z (n2 * n2 - ns * ns))))) with
-          | None => None
-          | Some nh =>
-            let hOffset := zlen vb in
-            match vget vb (eo0 + ns - 1), vget vb 2 with
-            | Some middleBary, Some b2 =>
-              let vb1 := vb ++ edge_verts b2 middleBary nh in
-              let tv0 := [(eo1 - 1, 1, eo1)] in
-              match partition_quad (fuel_of n) vb1 (V4 (eo1 - 1) eo1 2 (eo0 + ns - 1))
-                                   (V4 (-1) (eo1 + 1) hOffset (eo0 + ns))
-                                   (V4 0 (n1 - 2) (nh - 1) (n0 - ns - 2)) allfwd with
-              | None => None
-              | Some (tv1, vb2) =>
-                if n2 =? 1 then
-                  Some (vb2, tv0 ++ tv1 ++ partition_fan 0 (eo0 + ns - 1) 2 (ns - 1) eo0)
-                else if ns =? 1 then
-                  match partition_quad (fuel_of n) vb2 (V4 hOffset eo2 0 eo0)
-                                       (V4 (-1) (eo2 + 1) (-1) (hOffset + nh - 2))
-                                       (V4 0 (n2 - 2) (ns - 1) (nh - 2)) (V4 true true true false) with
-                  | None => None
-                  | Some (tv2, vb3) => Some (vb3, tv0 ++ tv1 ++ [(hOffset, 2, eo2)] ++ tv2)
-                  end
-                else
-                  match partition_quad (fuel_of n) vb2 (V4 (hOffset - 1) eo0 (eo0 + ns - 1) 2)
-                                       (V4 (-1) (eo0 + 1) (hOffset + nh - 2) eo2)
-                                       (V4 0 (ns - 2) (nh - 1) (n2 - 2)) (V4 true true false true) with
-                  | None => None
-                  | Some (tv2, vb3) => Some (vb3, tv0 ++ tv1 ++ [(hOffset - 1, 0, eo0)] ++ tv2)
-                  end
-              end
-            | _, _ => None
-            end
-          end
+        | Some (ns, nh) => tri_obtuse n vb ns nh
         end.
 
   (* the sort / rotation of GetPartition (lines 48-92): (sortedDiv, triIdx) *)
